@@ -621,7 +621,12 @@ class HostInterp:
             left = self.ev(e.left, env)
             for op, r in zip(e.ops, e.comparators):
                 right = self.ev(r, env)
-                if isinstance(op, ast.Eq):
+                if isinstance(op, (ast.Eq, ast.NotEq)) and isinstance(left, Instance) and "__eq__" in left._methods:
+                    # an object of an interpreted class with its own equality
+                    r_ = self.call_function(left._methods["__eq__"], [left, right], {}, {})
+                    r_ = (left is right) if r_ is NotImplemented else bool(r_)
+                    ok = r_ if isinstance(op, ast.Eq) else not r_
+                elif isinstance(op, ast.Eq):
                     ok = left == right
                 elif isinstance(op, ast.NotEq):
                     ok = left != right
@@ -729,6 +734,8 @@ class HostInterp:
         if isinstance(fn, tuple) and fn and fn[0] == "method":
             m = self.methods[fn[1]]
             return self.call_function(m, _receiver(m, self.self_obj) + args, kwargs, {})
+        if fn is hash and len(args) == 1 and isinstance(args[0], Instance) and "__hash__" in args[0]._methods:
+            return self.call_function(args[0]._methods["__hash__"], [args[0]], {}, {})
         if isinstance(fn, HostFn):
             return fn(*args, **kwargs)
         if isinstance(fn, Instance) and "__call__" in fn._methods:
